@@ -49,15 +49,15 @@ def _work(job):
     swaps = []
     pin = ir["params"]
     pout = cur.get("params") or {}
-    for n, q in pout.items():
-        if n not in pin:
-            continue
-        for m, other in pin.items():
-            if m == n:
-                continue
+    names = [n for n in pout if n in pin]
+    for i, n in enumerate(names):
+        for m in names[i + 1:]:
             for fld in ("doc", "typ"):
-                if q.get(fld) and other.get(fld) and R.canon_doc(q.get(fld)) == R.canon_doc(other.get(fld)) and R.canon_doc(pin[n].get(fld)) != R.canon_doc(other.get(fld)):
-                    swaps.append({"path": "params.%s.%s" % (n, fld), "want": pin[n].get(fld), "got": q.get(fld), "swapped_from": m})
+                a_in, b_in = R.canon_doc(pin[n].get(fld)), R.canon_doc(pin[m].get(fld))
+                a_out, b_out = R.canon_doc(pout[n].get(fld)), R.canon_doc(pout[m].get(fld))
+                # a genuine swap: the two parameters exchanged two DIFFERENT values
+                if a_in and b_in and a_in != b_in and a_out == b_in and b_out == a_in:
+                    swaps.append({"path": "params.%s.%s" % (n, fld), "want": pin[n].get(fld), "got": pout[n].get(fld), "swapped_from": m})
     invented = [n for n in pout if n not in pin]
     return kinds, label, hops, (swaps, invented)
 
